@@ -72,3 +72,31 @@ pub fn c18(tier: &str) -> i32 {
         &|f: &str| f.split_once(" ## ").and_then(|(head, _)| head.split_whitespace().last().map(|s| s.to_string())).filter(|id| id.starts_with("KF-") || id.starts_with("KT-")),
     )
 }
+
+pub fn c19(tier: &str) -> i32 {
+    use crate::engines::values;
+    let n = values::grid_len();
+    let groups = vec![
+        FlatGroup { name: "singles".into(), size: n, chunk: 8, what: "every grid value: reflexivity, serialize->deserialize identity, cast to its own type, casts to the other numeric types (must preserve the mathematical value or fail)".into() },
+        FlatGroup { name: "pairs".into(), size: n, chunk: 2, what: "ALL ordered pairs of grid values: symmetry of ==, == implies equal hashes, antisymmetry of partial_cmp, ordering consistent with ==, numeric comparison equal to exact mathematical comparison across integer/float types, text comparison equal to byte-wise lexicographic order".into() },
+        FlatGroup { name: "triples".into(), size: n, chunk: 1, what: "ALL ordered triples: transitivity of == and of the ordering".into() },
+        FlatGroup { name: "sql".into(), size: values::sql_types().len() as u64, chunk: 1, what: "per column type (INT, BIGINT, DOUBLE, TEXT): a table and a UNIQUE-indexed table holding the grid values; ORDER BY order, DISTINCT classes, = lookups (scan and index), < ranges, duplicate rejection - all against the exact reference order/equality".into() },
+    ];
+    run_flat(
+        "C19",
+        tier,
+        "exploration",
+        "values",
+        values::params(),
+        groups,
+        180,
+        &[
+            "grid: NULL, both Bools, boundary values of Int/BigInt/UInt/BigUInt around 2^24, 2^31, 2^32, 2^53, 2^63, Float/Double incl. -0.0, subnormals, max, infinities, NaN, and texts incl. empty, prefix-related, non-ASCII at 8-byte-aligned offsets, 300 and 70 000 bytes",
+            "reference: integers as i128, floats compared exactly (no rounding through f64), texts byte-wise",
+            "three listed findings are applied by value class only: a failing law is attributed to them only if the pair/triple contains NaN, a floating zero (hash), or a value that f64 cannot represent exactly",
+            "NaN and infinities cannot be written as SQL literals and are checked at the API level only",
+        ],
+        "exhaustive over the grid: every value, every ordered pair, every ordered triple; non-trivial = the law's premise held (equal pair, comparable numeric or text pair, chained triple)",
+        &|f: &str| f.split_once(" ## ").and_then(|(head, _)| head.split_whitespace().last().map(|s| s.to_string())).filter(|id| id.starts_with("KF-") || id.starts_with("KT-")),
+    )
+}
